@@ -1,8 +1,8 @@
 import BppModel.Matrix
 /-!
-# `MatrixTools::lap` (`MatrixTools.h:1263-1541`): the linear assignment problem
+# `MatrixTools::lap` (`MatrixTools.h:1267-1552`): the linear assignment problem
 
-## Specification (relational model)
+## Specification
 
 What the property demands of `lap` is a statement about its *answer*: `rowSol` is a permutation,
 `colSol` its inverse, and the dual variables `u`, `v` certify optimality
@@ -12,6 +12,9 @@ the theorem `lap_certificate` of `Props/C04Lap.lean` proves at `ℝ` that it imp
 all `n!` permutations, for every `n`).  `certTolB` is the same with a slack `ε` on every
 (in)equality, for cost matrices whose reduced costs are not exactly representable
 (`lap_certificate_approx`: optimal within `2 n ε`).
+
+The routine itself is transcribed in `BppModel/LapFull.lean` (`lapFull`); `lapEasy` below is the
+earlier transcription of the part that is executed when the column reduction leaves no free row.
 -/
 namespace Bpp.Mx.Lap
 open Bpp Bpp.Mx
